@@ -113,3 +113,24 @@ Example sobel_demo : run demo demo_mask prog_hsobel img_a (2, 2) = run demo demo
                   /\ run demo demo_mask prog_median_filter img_a (1, 1) = run demo demo_mask prog_median_filter img_b (1, 1)
                   /\ run demo demo_mask (prog_regional_maximum_struct 0) img_a (2, 1) = run demo demo_mask (prog_regional_maximum_struct 0) img_b (2, 1).
 Proof. vm_compute. auto. Qed.
+
+(* the footprint lattice really discriminates: a read over structure 0 under a selector eroded by the SAME structure
+   is accepted (what remains is the centre pixel, which is in the mask); under a selector eroded by a DIFFERENT
+   structure, under no erosion at all, or mixed with a radius-1 read it is rejected *)
+Example footprint_same_structure_accepted :
+  accepts ([], Select (Select (Pw 0 [LocS 0 1 Img]) (ErodeS 0 MaskE) FalseC) MaskE FalseC) = true.
+Proof. reflexivity. Qed.
+Example footprint_other_structure_rejected :
+  accepts ([], Select (Select (Pw 0 [LocS 0 1 Img]) (ErodeS 1 MaskE) FalseC) MaskE FalseC) = false.
+Proof. reflexivity. Qed.
+Example footprint_without_erosion_rejected : accepts ([], Select (Pw 0 [LocS 0 1 Img]) MaskE FalseC) = false.
+Proof. reflexivity. Qed.
+Example footprint_mixed_with_radius_rejected :
+  accepts ([], Select (Pw 0 [LocS 0 1 Img; Loc 1 2 Img]) (ErodeS 0 MaskE) FalseC) = false.
+Proof. reflexivity. Qed.
+(* sharing: a definition is checked once and its guarantee travels with the reference *)
+Example shared_selector_accepted :
+  accepts ([Erode 1 MaskE; Loc 1 0 Img], Select (Pw 1 [Ref 1]) (Ref 0) FalseC) = true.
+Proof. reflexivity. Qed.
+Example dangling_reference_rejected : accepts ([], Ref 0) = false.
+Proof. reflexivity. Qed.
